@@ -222,7 +222,16 @@ def finish(args, mod, results, problems, nsh, t0, repo):
     rdir = os.path.join(out_dir(), 'replays', prop)
     if real_violations:
         os.makedirs(rdir, exist_ok=True)
-        for v in real_violations[:12]:
+        # spread the recorded witnesses over the violated clauses (round robin) so that every mechanism gets a replay
+        by_clause = {}
+        for v in real_violations:
+            by_clause.setdefault(v['clause'], []).append(v)
+        picked = []
+        while len(picked) < 12 and any(by_clause.values()):
+            for c in sorted(by_clause):
+                if by_clause[c] and len(picked) < 12:
+                    picked.append(by_clause[c].pop(0))
+        for v in picked:
             v = dict(v)
             v['property'] = prop
             v['repo_head'] = head
